@@ -1,7 +1,7 @@
 (* C14  Tokens tile the input; longest match; spacing is insignificant.
    Property theorems only; every proof is `exact` a lemma of Proofs/. *)
 From Formula Require Import Lex.Scanner Lex.ScanSpec Syn.Parser Syn.Ast Proofs.Utf8Facts Proofs.ScannerFacts
-     Proofs.CharsFacts Proofs.SourceFacts Tie.TablesTie.
+     Proofs.ScannerOps Proofs.CharsFacts Proofs.SourceFacts Tie.TablesTie.
 
 (* the scanner always returns a token stream (no fuel exhaustion) for every byte string *)
 Theorem C14_scan_total : forall text, exists toks, scan_all text = Some toks.
@@ -34,6 +34,15 @@ Proof. exact scan_one_progress. Qed.
    the general statement over arbitrary continuations is Proofs/ScannerOps.v *)
 Theorem C14_operator_dispatch_is_the_codes : dispatch_ok = true.
 Proof. exact operator_dispatch_tie. Qed.
+
+(* ... and for EVERY input: at an operator character (not a dot that starts a number) the token is
+   the LONGEST lexeme of the operator table (ScanSpec.op_lexemes) that is a prefix of the input *)
+Theorem C14_operators_longest_match : forall ss pos tok rest,
+  (forall s, In s ss -> True) -> skip_trivia ss pos false = (ss, pos, false) ->
+  starts_operator ss = true -> scan_one ss pos = (tok, rest) ->
+  exists lex, longest_match ss = Some (lex, tk tok) /\ rest = skipn (length lex) ss /\
+    tval tok = [] /\ tdiags tok = [].
+Proof. exact operators_longest_match. Qed.
 
 (* spacing is insignificant: two texts whose token streams agree in kinds and values, and in the
    line-break flag of `.`, `!.` and `(` tokens, parse alike *)
@@ -95,6 +104,7 @@ Print Assumptions C14_tokens_tile.
 Print Assumptions C14_trivia_is_whitespace.
 Print Assumptions C14_progress.
 Print Assumptions C14_operator_dispatch_is_the_codes.
+Print Assumptions C14_operators_longest_match.
 Print Assumptions C14_spacing_insignificant.
 Print Assumptions C14_spacing_insignificant_reject.
 Print Assumptions C14_keywords_whole_word.
